@@ -185,7 +185,7 @@ def jobs(tier: str, seed: int):
         "explanation": "Translation validation of generate_loopy: per program the generated kernel (read from the real "
                        "TranslationUnit) is evaluated at a symbolic element index over uninterpreted inputs and compared "
                        "by CrossHair/z3 with NumPy's meaning of the program, per output; reductions in lock step.",
-        "bounds": {"programs": f"{len(progs)} (committed corpus{' + seeded generator' if th else ''}); <= 4 axes of length "
+        "bounds": {"programs": f"{len(progs)} (committed corpus + {120 if th else 24} programs of the shape-aware seeded generator{' + 40 of the first generator' if th else ''}); <= 4 axes of length "
                                "<= 5, 1..9 outputs", "output orders": list(ORDERS),
                    "inputs / element indices": "all (uninterpreted inputs, symbolic index)"},
         "outside": ["loopy's own lowering of the TranslationUnit to C/OpenCL (trusted dependency)",
